@@ -2,9 +2,9 @@ from .engine import main_for
 
 
 def props():
-    from . import props_lex, props_expr, props_units, props_display, props_db
+    from . import props_lex, props_expr, props_units, props_display, props_db, props_words
     table = {}
-    for mod in (props_lex, props_expr, props_units, props_display, props_db):
+    for mod in (props_lex, props_expr, props_units, props_display, props_db, props_words):
         for name in dir(mod):
             obj = getattr(mod, name)
             if isinstance(obj, type) and hasattr(obj, "id") and name.startswith("C") and name[1:].isdigit():
